@@ -862,6 +862,27 @@ def falsy_defaults(ctx, rule="RZ"):
                         bad = bad or ("`%s or %s`: a %s of 0 is a legal value (documented as `%s`) but is replaced by the default like None" % (nm, show(x[2][1])[:30], nm, entry.split("\n")[0][:40]), p.line)
         ctx.check(rule, qn + "|zero-is-not-treated-as-missing", False if bad else True, "no numeric parameter is defaulted with `or`", fn=qn, nontrivial=False,
                   bad=bad[0] if bad else "", line=bad[1] if bad else None)
+        # a loop-carried "best so far" variable that starts as None and is tested by TRUTHINESS (`if not best or x < best`): the legal value
+        # 0 (a perfect score, a zero distance) counts as "nothing yet" and is overwritten by a worse candidate
+        bad2 = None
+        for fx in [fa] + list(fa.nested.values()):
+            bare, ordered = {}, {}
+            for p in fx.paths:
+                for c, _v in p.conds:
+                    if c[0] in ("prev", "mu") and c[3] == NONE:
+                        bare[(c[1], c[2])] = p.line
+                    if c[0] == "cmp" and c[1] in ("<", ">", "<=", ">="):
+                        for a, b in ((c[2], c[3]), (c[3], c[2])):
+                            if a[0] in ("prev", "mu") and a[3] == NONE:
+                                ub = Q.unwrap(b)
+                                if (ub[0] == "call" and str(callee(ub)).rsplit(".", 1)[-1] in ("abs", "absolute", "fabs", "hypot", "norm")) or (ub[0] == "binop" and ub[1] == "-"):
+                                    ordered[(a[1], a[2])] = show(ub)[:50]
+            for k in bare:
+                if k in ordered:
+                    bad2 = bad2 or ("`%s` starts as None, is compared by size with %s and is tested by truthiness: a value of exactly 0 counts as 'not set yet' and is replaced by a worse candidate"
+                                    % (k[1], ordered[k]), bare[k])
+        ctx.check(rule, qn + "|none-sentinel-is-not-tested-by-truthiness", False if bad2 else True, "no None-or-number sentinel is tested by truthiness", fn=qn, nontrivial=False,
+                  bad=bad2[0] if bad2 else "", line=bad2[1] if bad2 else None)
 
 
 def chunked_loops(ctx, rule="RC"):
